@@ -195,3 +195,9 @@ package cache
 //@   requires ca != nil
 //@   modifies ca.LastValue
 //@   ensures result == old(ca.LastValue) && ca.LastValue == ""
+
+// ---- who may write the representation (module-wide audit; the fields are exported) ----
+//@ fieldwriters[C09,C05,C08] Cache.Cache = NewCache, (*Cache).Push, (*Cache).Pop, (*Cache).Reset
+//@ fieldwriters[C09,C05,C08] Cache.CacheUseSize = (*Cache).Add, (*Cache).Update, (*Cache).Pop, (*Cache).Reset
+//@ fieldwriters[C09,C05,C08] Cache.Sizes = NewCache
+//@ fieldwriters[C09,C05,C08] Cache.CacheSize = (*Cache).WithCacheSize
